@@ -56,7 +56,7 @@ SetAtoms == { Atom(kk, 0, 0, 0, 0, S) : kk \in {"in_set", "not_in_set"}, S \in {
 TimeAtoms == { Atom("in_range", 3, 0, lo, hi, {}) : lo \in {1, 3, 4, 5}, hi \in {2, 5, 6, NT} }
              \cup { Atom("equals", 3, x, 0, 0, {}) : x \in {1, 5, NT} } \cup { Atom(kk, 3, 0, 0, 0, S) : kk \in {"in_set", "not_in_set"}, S \in { {5}, {1, NT}, {4, 6} } }
 Atoms == EqAtoms \cup RangeAtoms \cup SetAtoms \cup TimeAtoms
-DefaultStmt == << Atom("equals", 0, 2, 0, 0, {}), Atom("in_range", 8, 0, 3, 6, {}) >>
+DefaultStmt == << Atom("in_range", 8, 0, 3, 6, {}), Atom("equals", 0, 2, 0, 0, {}) >>      \* the equals statement last: alterations of the last statement / proof leave the transcript of the first intact
 Stmts == { <<a>> : a \in Atoms } \cup { <<>> } \cup { <<a, b>> : a \in { x \in EqAtoms : x.tag = 0 }, b \in { x \in RangeAtoms : x.lo = 3 } } \cup {DefaultStmt}
 
 (* the statement with its last atom replaced by a neighbouring one (another bound / another set / another tag) *)
@@ -73,7 +73,7 @@ Default == [f \in Fields |->
   CASE f = "cred_net" -> "T" [] f = "ctx_net" -> "T" [] f = "time" -> "inside" [] f = "anchor" -> "ok" [] f = "pres_given" -> "same"
     [] f = "req_requested" -> "bh" [] f = "pres_requested" -> "filled" [] f = "crypto" -> "none" [] f = "claims" -> "one" [] f = "sources" -> "both"
     [] f = "issuers" -> "exact" [] f = "req_stmt" -> "same"]
-(* alterations of the presentation or of the verification material after proving.  "revealed_marker(_forged)": the proof of the first (equals) statement is replaced by the
+(* alterations of the presentation or of the verification material after proving.  "revealed_marker(_forged)": the proof of the last (equals) statement is replaced by the
    marker "value already revealed" (and the claimed value by another one) - an account credential reveals nothing, an identity credential reveals the true value;
    "extra_sharing_coeff": one more (neutral) commitment to a sharing coefficient than the revocation threshold of the identity credential *)
 CryptoCommon == {"statement_swapped", "context_after", "proof_truncated", "pair_truncated", "network_after", "created_after", "material_other", "material_kind", "material_count", "issuer_after", "cred_id_after",
